@@ -23,65 +23,90 @@ template<class T> static std::string es_in(const char* head, const T* a, size_t 
     t.arr("A", a, na).arr("B", b, nb);
     return t.s;
 }
-// result: extents of the returned STATIC type and its elements
-template<class T, size_t... R> static void es_put(vt::Ev& ev, const Tensor<T,R...>& r) {
+// result of a call as plain integers: extents of the returned STATIC type, then its elements (complex: re, im)
+struct EsRes { std::vector<long long> shape, vals; };
+template<class T> static void es_val(EsRes& o, const T& v) { o.vals.push_back(vt::as_ll(v, std::is_floating_point<T>())); }
+template<class T> static void es_val(EsRes& o, const std::complex<T>& v) {
+    o.vals.push_back(vt::as_ll(v.real(), std::true_type())); o.vals.push_back(vt::as_ll(v.imag(), std::true_type()));
+}
+template<class T, size_t... R> static void es_put(EsRes& o, const Tensor<T,R...>& r) {
     const long long d[] = {(long long)R..., 0};
-    ev.s += ",\"shape\":[";
-    for (size_t i = 0; i < sizeof...(R); ++i) { if (i) ev.s += ","; ev.s += std::to_string(d[i]); }
-    ev.s += "]";
-    ev.arr("vals", r.data(), (size_t)pack_prod<R...>::value);
+    for (size_t i = 0; i < sizeof...(R); ++i) o.shape.push_back(d[i]);
+    for (size_t i = 0; i < (size_t)pack_prod<R...>::value; ++i) es_val(o, r.data()[i]);
 }
 template<class T> static typename std::enable_if<std::is_arithmetic<T>::value || vt::is_cx<T>::value>::type
-es_put(vt::Ev& ev, const T& r) { ev.s += ",\"shape\":[]"; ev.arr("vals", &r, 1); }
+es_put(EsRes& o, const T& r) { es_val(o, r); }
 
-static void es_fault(const std::string& cid, const std::string& in, int sig) {
-    vt::Ev ev("Einsum"); ev.str("case", cid);
-    ev.s += ",\"in\":{" + in + "},\"out\":{\"fault\":" + std::to_string(sig) + ",\"shape\":[],\"vals\":[]}";
-    ev.emit();
-}
-static void es_child_signals() {
+static void es_child_exit() { _exit(77); }
+static void es_child_setup() {
     signal(SIGSEGV, SIG_DFL); signal(SIGBUS, SIG_DFL); signal(SIGILL, SIG_DFL); signal(SIGFPE, SIG_DFL); signal(SIGABRT, SIG_DFL);
+    std::set_terminate(es_child_exit);
 }
-static void es_wait(pid_t pid, const std::string& cid, const std::string& in) {
-    int st = 0; waitpid(pid, &st, 0);
-    if (!(WIFEXITED(st) && WEXITSTATUS(st) == 0)) es_fault(cid, in, WIFSIGNALED(st) ? WTERMSIG(st) : 1000 + WEXITSTATUS(st));
+template<class T> __attribute__((noinline)) static void es_load(T* d, const T* s, size_t n) {
+    for (size_t i = 0; i < n; ++i) d[i] = s[i];
+    asm volatile("" : : "r"(d) : "memory");
 }
-// Every call runs in a forked child: a call that faults (or smashes its stack) costs one event, not the rest of the unit.
-// The child computes the result FIRST and only then builds the event.
-#define ES_RUN(CALL)                                                                             \
-    fflush(vt::g_out);                                                                           \
-    pid_t pid = fork();                                                                          \
-    if (pid == 0) {                                                                              \
-        es_child_signals();                                                                      \
-        auto res = CALL;                                                                         \
-        vt::Ev ev("Einsum"); ev.str("case", cid);                                                \
-        ev.s += ",\"in\":{" + in + "},\"out\":{\"fault\":0";                                     \
-        es_put(ev, res);                                                                         \
-        ev.s += "}"; ev.emit(); fflush(vt::g_out); _exit(0);                                     \
-    }                                                                                            \
-    es_wait(pid, cid, in);
-
-template<class TA, class TB, class F> static void es_pair(const char* id, const char* head, F f) {
-    for (int draw = 0; draw < 2; ++draw) {
-        std::string cid = std::string(id) + "/d" + std::to_string(draw);
-        vt::g_cur_case = cid.c_str();
-        vt::Rng r(vt::hash_str(cid.c_str()));
-        TA a; TB b;
-        es_fill(a.data(), (size_t)a.size(), draw, r, 0);
-        es_fill(b.data(), (size_t)b.size(), draw, r, 1);
-        std::string in = es_in(head, a.data(), (size_t)a.size(), b.data(), (size_t)b.size());
-        ES_RUN(f(a, b))
+// One case = one plain function  fn(res, pa, pb)  that copies the operand data into its statically shaped tensors, makes the
+// call and stores the result.  The driver is templated on the element type only.  Every call runs in a forked child process that
+// sends the result through a pipe as raw integers; the parent (whose memory the call cannot have damaged) writes the event.  A call
+// that faults or smashes its stack therefore costs one event (fault = signal number, 1000 + exit code, 2000 = malformed reply)
+// and not the rest of the unit.
+static std::string es_out_json(int fault, const std::vector<long long>& w, bool cx) {
+    std::string o = "\"fault\":" + std::to_string(fault) + ",\"shape\":[";
+    size_t ns = 0, nv = 0;
+    bool ok = fault == 0 && !w.empty();
+    if (ok) { ns = (size_t)w[0]; ok = w[0] >= 0 && w[0] <= 8 && w.size() >= ns + 2; }
+    if (ok) { nv = (size_t)w[ns + 1]; ok = w[ns + 1] >= 0 && w.size() == ns + 2 + nv && (!cx || nv % 2 == 0); }
+    if (!ok) return "\"fault\":" + std::to_string(fault ? fault : 2000) + ",\"shape\":[],\"vals\":[]";
+    for (size_t i = 0; i < ns; ++i) { if (i) o += ","; o += std::to_string(w[1 + i]); }
+    o += "],\"vals\":[";
+    const long long* v = w.data() + ns + 2;
+    for (size_t i = 0; i < nv; i += cx ? 2 : 1) {
+        if (i) o += ",";
+        long long x = v[i]; if (x >= vt::LIM || x <= -vt::LIM) x = vt::BADV;
+        if (cx) { long long y = v[i + 1]; if (y >= vt::LIM || y <= -vt::LIM) y = vt::BADV; o += "[" + std::to_string(x) + "," + std::to_string(y) + "]"; }
+        else o += std::to_string(x);
     }
+    return o + "]";
 }
-template<class TA, class F> static void es_single(const char* id, const char* head, F f) {
+template<class T> static void es_drive(const char* id, const char* head, size_t na, size_t nb, void (*fn)(EsRes&, const T*, const T*)) {
     for (int draw = 0; draw < 2; ++draw) {
         std::string cid = std::string(id) + "/d" + std::to_string(draw);
         vt::g_cur_case = cid.c_str();
         vt::Rng r(vt::hash_str(cid.c_str()));
-        TA a;
-        es_fill(a.data(), (size_t)a.size(), draw, r, 0);
-        std::string in = es_in(head, a.data(), (size_t)a.size(), a.data(), 0);
-        ES_RUN(f(a))
+        std::vector<T> a(na), b(nb);
+        es_fill(a.data(), na, draw, r, 0);
+        es_fill(b.data(), nb, draw, r, 1);
+        int fd[2];
+        if (pipe(fd) != 0) { std::perror("pipe"); std::exit(3); }
+        fflush(vt::g_out);
+        pid_t pid = fork();
+        if (pid < 0) { std::perror("fork"); std::exit(3); }
+        if (pid == 0) {
+            close(fd[0]);
+            es_child_setup();
+            EsRes res;
+            fn(res, a.data(), b.data());
+            std::vector<long long> w;
+            w.push_back((long long)res.shape.size()); w.insert(w.end(), res.shape.begin(), res.shape.end());
+            w.push_back((long long)res.vals.size());  w.insert(w.end(), res.vals.begin(), res.vals.end());
+            const char* p = (const char*)w.data(); size_t left = w.size() * sizeof(long long);
+            while (left) { ssize_t k = write(fd[1], p, left); if (k <= 0) _exit(78); p += k; left -= (size_t)k; }
+            _exit(0);
+        }
+        close(fd[1]);
+        std::vector<long long> w; long long buf[512]; ssize_t k; size_t bytes = 0;
+        std::vector<char> raw;
+        while ((k = read(fd[0], buf, sizeof buf)) > 0) { raw.insert(raw.end(), (char*)buf, (char*)buf + k); bytes += (size_t)k; if (bytes > (1u << 24)) break; }
+        close(fd[0]);
+        int st = 0; waitpid(pid, &st, 0);
+        int fault = (WIFEXITED(st) && WEXITSTATUS(st) == 0) ? 0 : (WIFSIGNALED(st) ? WTERMSIG(st) : 1000 + WEXITSTATUS(st));
+        if (raw.size() % sizeof(long long) == 0) { w.resize(raw.size() / sizeof(long long)); if (!w.empty()) memcpy(w.data(), raw.data(), raw.size()); }
+        vt::Ev ev("Einsum"); ev.str("case", cid);
+        ev.s += ",\"in\":{"; ev.s += es_in(head, a.data(), na, b.data(), nb); ev.s += "},\"out\":{";
+        ev.s += es_out_json(fault, w, vt::is_cx<T>::value);
+        ev.s += "}";
+        ev.emit();
     }
 }
 // L2 binding: the library's own classifier values for this pattern (compared with EinsumDispatch; mismatch = MODEL-DRIFT)
@@ -190,15 +215,24 @@ class C03(Check):
             return c["form"] in ("einsum", "contraction") and c["T"] in ("f64", "i32") and max(len(c["la"]), len(c["lb"])) <= 3
         return True
 
-    def stmt(self, c):
+    def stmt(self, c, k, meta):
+        """-> (function definition, statement in main) for case c (k: number inside the unit)"""
         T, form = c["T"], c["form"]
+        cT = CXX_T[T]
         head = '\\"T\\":\\"%s\\",\\"form\\":\\"%s\\",\\"la\\":[%s],\\"lb\\":[%s],\\"sa\\":[%s],\\"sb\\":[%s],\\"out\\":[%s]' % (
             T, form, ",".join(map(str, c["la"])), ",".join(map(str, c["lb"])), ",".join(map(str, c["sa"])),
             ",".join(map(str, c["sb"])), ",".join(map(str, c["out"])))
         tA = _tensor(T, c["sa"])
+        na = nb = 1
+        for x in c["sa"]:
+            na *= x
         if form in ("single", "single_explicit"):
             targs = _idx(c["la"]) + ("," + _idx(c["out"], "OIndex") if form == "single_explicit" else "")
-            return '    es_single<%s>("%s","%s",[](const %s& a){ return einsum<%s>(a); });' % (tA, c["case"], head, tA, targs)
+            fn = ("static void c%d(EsRes& o, const %s* pa, const %s*) { %s a; es_load(a.data(), pa, %d); es_put(o, einsum<%s>(a)); }"
+                  % (k, cT, cT, tA, na, targs))
+            return fn, '    es_drive<%s>("%s","%s",%d,0,c%d);' % (cT, c["case"], head, na, k)
+        for x in c["sb"]:
+            nb *= x
         tB = _tensor(T, c["sb"])
         I, J = _idx(c["la"]), _idx(c["lb"])
         if form == "einsum":
@@ -213,19 +247,30 @@ class C03(Check):
             call = "outer(a,b)"
         else:
             raise ToolFailure("unknown form " + form)
-        s = '    es_pair<%s,%s>("%s","%s",[](const %s& a, const %s& b){ return %s; });' % (tA, tB, c["case"], head, tA, tB, call)
-        if form == "einsum":
-            s += '\n    es_meta<%s,%s,%s>("%s","%s");' % (I, J, tB, c["case"], head)
-        return s
+        fn = ("static void c%d(EsRes& o, const %s* pa, const %s* pb) { %s a; %s b; es_load(a.data(), pa, %d); es_load(b.data(), pb, %d); es_put(o, %s); }"
+              % (k, cT, cT, tA, tB, na, nb, call))
+        st = '    es_drive<%s>("%s","%s",%d,%d,c%d);' % (cT, c["case"], head, na, nb, k)
+        if form == "einsum" and meta:
+            st += '\n    es_meta<%s,%s,%s>("%s","%s");' % (I, J, tB, c["case"], head)
+        return fn, st
 
     def units(self, ctx, plan, cfgname):
         mine = [c for c in plan if self.runs(c, cfgname)]
-        mine.sort(key=lambda c: (c["T"], len(c["la"]) + len(c["lb"]), c["case"]))
-        units, per = [], 55
-        for ci in range(0, len(mine), per):
-            body = "\n".join(self.stmt(c) for c in mine[ci:ci + per])
-            src = PRELUDE + "int main(int argc, char** argv) {\n    vt::open(argc, argv, \"%s\");\n    vt::install_handlers();\n%s\n    vt::close_ok();\n    return 0;\n}\n" % (cfgname, body)
-            units.append(("es_%03d" % (ci // per), src, []))
+        # units of similar cost: cases dealt round-robin in order of (type, size of the loop nest)
+        mine.sort(key=lambda c: (c["T"], nterms(c), c["case"]))
+        nunits = max(1, round(len(mine) / 64.0))
+        # the classifier values are compile-time constants independent of the configuration: logged in one configuration
+        meta = cfgname == "avx2-14-O2"
+        units = []
+        for u in range(nunits):
+            fns, sts = [], []
+            for k, c in enumerate(mine[u::nunits]):
+                f, s = self.stmt(c, k, meta)
+                fns.append(f)
+                sts.append(s)
+            src = (PRELUDE + "\n".join(fns) + "\nint main(int argc, char** argv) {\n    vt::open(argc, argv, \"%s\");\n    vt::install_handlers();\n%s\n"
+                   "    vt::close_ok();\n    return 0;\n}\n" % (cfgname, "\n".join(sts)))
+            units.append(("es_%03d" % u, src, []))
         return units
 
     def post_events(self, ctx, traces):
